@@ -47,3 +47,13 @@ for d_, t_ in ((-80, "quick"), (-64, "thorough"), (-1, "quick"), (0, "quick"), (
         gi_pre=["--replace-calls", "crypto_sign_ed25519_detached:s_sign_detached"], cbmc=["--unwind", "90", "--unwinding-assertions", "--object-bits", "12"],
         assumes=["crypto_sign_ed25519_detached replaced by a logging stub (its own obligation: c06.f.sign_detached)", "memmove over-approximated: first 64 bytes and one ghost byte exact"],
         bound="message length <= 80 bytes, relative offset %d" % d_))
+
+SC = ["general a: the 21-bit limb products a_i*b_j (symbolic multipliers) are NOT decided; these obligations fix a in {0,1} so that every product folds"]
+OBLIGATIONS += [
+    ob("c06.f.sc_muladd_01", "hf_muladd_01", ["sc25519_muladd"], "sc25519_muladd(a, b, c) for a in {0,1} and every b, c < 2^256: result < L and congruent to a*b + c modulo L (exact 600-bit integer arithmetic): carry chains and the folding of limbs 12..23 by 2^252 = -delta (mod L)",
+       src="harness/sc_reduce.c", props=("C06", "C07", "C12"), assumes=SC, replayable=False, cbmc=["--unwind", "70", "--unwinding-assertions"]),
+]
+for rb_, t_ in ((33, "quick"), (40, "thorough"), (64, "thorough")):
+    OBLIGATIONS.append(ob("c06.f.sc_reduce.bytes_%d" % rb_, "hf_reduce", ["sc25519_reduce"], "sc25519_reduce(s) for every s below 2^%d: result < L and congruent to s modulo L (exact integer arithmetic)" % (8 * rb_),
+       src="harness/sc_reduce.c", props=("C06", "C07", "C12"), defs=["-DRB=%d" % rb_], tier=t_, replayable=False, cbmc=["--unwind", "300", "--unwinding-assertions"], timeout=1800,
+       bound="none for s < 2^%d" % (8 * rb_)))
